@@ -20,6 +20,7 @@
                       `procCleanupSteps`, `funcCleanupSteps`).
   Import-free apart from `FordModel.*` (compiled driver).
 -/
+import FordModel.Generated.C18Cfg
 import FordModel.Basic.Chars
 import FordModel.TypeSpec
 namespace Ford.AttrStmt
@@ -143,7 +144,11 @@ def attach (params : List (Str × Str)) (items : List Item) (d : Dict) (vars : L
   | none => none
   | some d' => some (attachGo params d' vars)
 
-def isExternal (v : DVar) : Bool := v.attribs.contains (chars! "external")
+/-- the test of the `external` filter: `"external" in v.attribs`, or - since fix 04d703a -
+    `"external" in [attr.lower() for attr in v.attribs]` (`Generated.C18Cfg.externalCI`, read from the source) -/
+def isExternal (v : DVar) : Bool :=
+  if Generated.C18Cfg.externalCI then v.attribs.any (fun a => lower a == (chars! "external"))
+  else v.attribs.contains (chars! "external")
 
 def dropExternal (vars : List DVar) : List DVar := vars.filter (fun v => !isExternal v)
 
